@@ -22,7 +22,7 @@ from vp.unitgen import build
 from props.c07 import indep_scale_dim, erase, is_anyval, float_cert
 
 STATIC = ["approx_numbers_spec", "approx_rejects", "approx_accepts_abs", "approx_accepts_rel", "approx_symmetric_without_abs",
-    "approx_symmetric_infinite_refuted", "dim_gate_pass_iff", "approx_dimension_first", "assert_equal_dimension_first",
+    "approx_infinite_only_equal_to_itself", "approx_symmetric_extended", "assert_equal_infinite_rejects", "dim_gate_pass_iff", "approx_dimension_first", "assert_equal_dimension_first",
     "approx_imag_checked", "assert_equal_rejects", "assert_equal_accepts", "assert_equal_symmetric_without_abs",
     "approx_unit_independent", "approx_unit_independent_lhs", "bare_number_needs_dimension", "bare_number_with_dimension",
     "vectors_pass_iff", "vectors_need_equal_length"]
@@ -112,6 +112,8 @@ GUARD = Fraction(1, 2**40)
 
 def spec_numbers(l, r, rel, abs_, dflt, passed):
     """True / False / None(silent).  `passed` = the implementation said "equal"."""
+    if all(isinstance(x, (int, float)) for x in (l, r)) and (math.isinf(l) or math.isinf(r)) and not (math.isnan(l) or math.isnan(r)):
+        return passed == (l == r)          # an infinite value differs from everything but itself by more than any tolerance
     vals = [l, r] + [x for x in (rel, abs_) if x is not None]
     if not all(isinstance(x, (int, float)) and math.isfinite(x) for x in vals):
         return None
@@ -147,9 +149,11 @@ def spec_assert_equal(lhs, rhs, rel, abs_, dimension, dflt, verdict):
         dr = qx.dim_vec(dimension)
     elif dimension is not None and isinstance(rhs, SymQuantity) and not _is_spq(rhs):
         dr = qx.dim_vec(dimension)
+    passed = verdict is None
+    if (sl in (sympy.oo, -sympy.oo) or sr in (sympy.oo, -sympy.oo)) and sl is not sympy.nan and sr is not sympy.nan and sl != sr:
+        return not passed                                   # infinite vs anything else: must fail, in either order
     if is_anyval(sl) or is_anyval(sr) or dl[8] != 0 or dr[8] != 0 or sl.has(sympy.zoo) or sr.has(sympy.zoo):
         return None
-    passed = verdict is None
     if erase(dl) != erase(dr):
         return not passed
     try:
@@ -231,8 +235,11 @@ def stream_numbers(ctx, n, dflt):
     from symplyphysics.core.approx import approx_equal_numbers  # pylint: disable=import-outside-toplevel
     rng = ctx.rng
     cases, hist = [], {}
-    for _ in range(n):
-        l, r, rel, abs_, kind = gen_number_case(rng, dflt)
+    pool = [math.inf, -math.inf, 1.0, 0.0, -1e300, math.nan]
+    fixed = [(l, r, rel, abs_, "infinite-boundary") for l in pool for r in pool if math.isinf(l) or math.isinf(r)
+        for rel, abs_ in ((None, None), (0.5, None), (None, 1.0), (math.inf, None), (None, math.inf), (-1.0, None))]
+    for i in range(n):
+        l, r, rel, abs_, kind = fixed[i] if i < len(fixed) else gen_number_case(rng, dflt)
         kw = {}
         if rel is not None:
             kw["relative_tolerance"] = rel
@@ -412,9 +419,13 @@ def stream_quantities(ctx, n, dflt):
     rng = ctx.rng
     cases, hist = [], {}
     tries = 0
+    inf_pool = ["Quantity(oo, dimension=u.length)", "Quantity(-oo, dimension=u.length)", "Quantity(1*u.meter)", "Quantity(oo)", "Quantity(-oo)",
+        "Quantity(S(1))", "Quantity(oo*u.meter)", "Quantity(Float(1e300)*u.meter)", "S(1)", "oo"]
+    fixed = [{"lsrc": a, "rsrc": b, "rel": rel, "abs": ab, "dim": None, "kind": "infinite-boundary"}
+        for a in inf_pool for b in inf_pool if "oo" in a or "oo" in b for rel, ab in ((None, None), (0.5, 1.0))]
     while len(cases) < n and tries < 6 * n:
         tries += 1
-        c = gen_quantity_case(rng, dflt)
+        c = fixed.pop(0) if fixed else gen_quantity_case(rng, dflt)
         try:
             lhs0 = build(c["lsrc"])
         except Exception:  # pylint: disable=broad-except
@@ -569,7 +580,7 @@ def live_preamble():
 
 
 def replay_infinite_lhs(ctx):
-    """approx_symmetric_infinite_refuted, replayed on the implementation"""
+    """regression guard for 7783335: an infinite operand is equal only to itself, in both orders"""
     from symplyphysics import Quantity  # pylint: disable=import-outside-toplevel
     from symplyphysics.core.approx import approx_equal_numbers, assert_equal  # pylint: disable=import-outside-toplevel
     a = obs_bool(approx_equal_numbers, math.inf, 1.0)
@@ -578,14 +589,17 @@ def replay_infinite_lhs(ctx):
     v2, _ = obs_verdict(assert_equal, Quantity(1 * u.meter), Quantity(sympy.oo, dimension=u.length))
     ctx.coverage["infinite_lhs_replay"] = {"approx_equal_numbers(inf, 1.0)": str(a[1]), "approx_equal_numbers(1.0, inf)": str(b[1]),
         "assert_equal(oo m, 1 m)": "passes" if v1 is None else f"fails({v1})", "assert_equal(1 m, oo m)": "passes" if v2 is None else f"fails({v2})"}
-    if (a[0] == "ok" and a[1]) or v1 is None:
+    c = obs_bool(approx_equal_numbers, math.inf, math.inf)
+    d = obs_bool(approx_equal_numbers, -math.inf, math.inf)
+    ctx.coverage["infinite_lhs_replay"].update({"approx_equal_numbers(inf, inf)": str(c[1]), "approx_equal_numbers(-inf, inf)": str(d[1])})
+    if a != ("ok", False) or b != ("ok", False) or c != ("ok", True) or d != ("ok", False) or v1 is None or v2 is None:
         ctx.violation("C08:infinite-lhs-accepted",
-            "an infinite left operand is accepted against a finite right operand (and the verdict is not symmetric): "
+            "an infinite operand is not treated as equal only to itself: "
             f"approx_equal_numbers(inf, 1.0) = {a[1]}, approx_equal_numbers(1.0, inf) = {b[1]}; assert_equal(oo m, 1 m) "
             f"{'passes' if v1 is None else 'fails'}, assert_equal(1 m, oo m) {'passes' if v2 is None else 'fails'}",
             {"kind": "violation", "stream": "infinite-lhs", "observed": ctx.coverage["infinite_lhs_replay"],
              "expected": "an infinite value differs from 1 by more than any tolerance: the assertion must fail, in both orders",
-             "theorem_or_tie": "approx_symmetric_infinite_refuted (Coq witness l = +inf, r = 1) replayed on the implementation"}, True)
+             "theorem_or_tie": "approx_infinite_only_equal_to_itself / approx_symmetric_extended (l = +inf, r = 1) checked on the implementation"}, True)
 
 
 def run(ctx):
